@@ -104,7 +104,33 @@ func runWith(def *PropDef, t *testing.T, sc *Scenario, tape *core.Tape, j *core.
 	return RunScenario(t, sc, tape, j, keep)
 }
 
+// collapseIdle squeezes runs of idle clock advances so that the interesting
+// part of a trace fits into its tail.
+func collapseIdle(s []string) []string {
+	var out []string
+	run := 0
+	flush := func() {
+		if run > 1 {
+			out = append(out, fmt.Sprintf("(... %d idle clock advances)", run))
+		} else if run == 1 {
+			out = append(out, "idle")
+		}
+		run = 0
+	}
+	for _, l := range s {
+		if strings.HasPrefix(l, "idle") {
+			run++
+			continue
+		}
+		flush()
+		out = append(out, l)
+	}
+	flush()
+	return out
+}
+
 func tail(s []string, n int) []string {
+	s = collapseIdle(s)
 	if len(s) > n {
 		s = s[len(s)-n:]
 	}
@@ -280,6 +306,9 @@ func waitingCmds(rr *RunResult) string {
 func stuckClass(rr *RunResult) string {
 	set := map[string]bool{}
 	for _, c := range rr.Clients {
+		if c.closed {
+			continue
+		}
 		for _, op := range c.waiting {
 			set[cmdClass(op.Args)] = true
 		}
